@@ -684,6 +684,7 @@ func c09Scens(tier string) []c09Scen {
 		mcfg("fmp4", false, 3, "h264b"),
 		mcfg("ll", false, 7, "aac44", "h264b"),
 		func() muxCfg { c := mcfg("fmp4", false, 3, "vp9"); c.ParamDelta = "width+fullrange"; return c }(),
+		mcfg("fmp4", false, 3, "h264", "aacsbr"), // HE-AAC: the track's clock and timescale are the core rate
 	}
 	for i := range cfgs {
 		if cfgs[i].Variant == "ll" {
